@@ -708,7 +708,8 @@ def _inline_helpers(mod: str, tree: ast.Module, all_helpers, trees, pkgs: Set[st
             elif isinstance(st, ast.Assign):
                 if len(st.targets) == 1 and stmt_helper_call(st.value)[0] is not None:
                     return [st]
-                if not all(isinstance(t, ast.Name) or _simple(t) for t in st.targets):
+                if not all(isinstance(t, ast.Name) or _simple(t) for t in st.targets) and not (
+                        len(st.targets) == 1 and isinstance(st.targets[0], ast.Subscript) and _simple(st.targets[0].value) and _simple(st.value)):
                     return [st]
                 exprs = [(st, "value")]
             elif isinstance(st, ast.AnnAssign):
@@ -725,9 +726,14 @@ def _inline_helpers(mod: str, tree: ast.Module, all_helpers, trees, pkgs: Set[st
                 exprs = [(st, "value")]
             elif isinstance(st, ast.If):
                 exprs = [(st, "test")]
+            elif isinstance(st, ast.Delete) and len(st.targets) == 1 and isinstance(st.targets[0], ast.Subscript) and _simple(st.targets[0].value):
+                exprs = [(st.targets[0], "slice")]
             else:
                 return [st]
             holder, fld = exprs[0]
+            if isinstance(st, ast.Assign) and len(st.targets) == 1 and isinstance(st.targets[0], ast.Subscript) and _simple(st.targets[0].value) and _simple(st.value):
+                # self[h(x)] = v : the value and the container are plain names, so the key expression is the first call evaluated
+                holder, fld = st.targets[0], "slice"
             e = getattr(holder, fld)
             first = next(iter(_eval_order(e)), None)
             if first is None or first is _BLOCK:
